@@ -147,6 +147,8 @@ type cworld struct {
 	// fetchOne of its only updater (keyed by the updater's name)
 	launchPlan map[int64]int
 	fetchPlan  map[string]int
+	// the manifest an Index call on this goroutine was asked to index
+	wantKey map[int64]string
 }
 
 func newCWorld(r *hx.Run, mode string) *cworld {
@@ -155,7 +157,7 @@ func newCWorld(r *hx.Run, mode string) *cworld {
 		inCall: map[int64]*caller{}, lastCall: map[int64]*caller{}, relOf: map[int64]*caller{},
 		rawLockG: map[int64]*rawThread{}, rawTryG: map[int64][2]int{}, rawRelG: map[int64]int{}, rawFired: map[int64]bool{}, rawAcq: map[int64]int{},
 		threads: map[int]*rawThread{}, rawGrants: map[int]*grant{}, manifests: map[int]*claircore.Manifest{},
-		keyNames: map[int]string{}, keyNos: map[string]int{}, launchPlan: map[int64]int{}, fetchPlan: map[string]int{}}
+		keyNames: map[int]string{}, keyNos: map[string]int{}, launchPlan: map[int64]int{}, fetchPlan: map[string]int{}, wantKey: map[int64]string{}}
 	switch mode {
 	case "updater":
 		w.inner = updater.NewLocalLockerForVerif()
@@ -229,6 +231,17 @@ func (w *cworld) cancelParent(p int) {
 	w.mu.Lock()
 	w.parents[p].dead = true
 	w.r.Op(fmt.Sprintf("cancel %d", p), "ok", true)
+	// the holder's context follows its parent
+	for _, g := range w.rawGrants {
+		if g.parent == p && g.ctx.Err() == nil {
+			w.r.Fail("", fmt.Sprintf("holder-context-live-although-parent-cancelled gid=%d key=%d parent=%d", g.gid, g.key, p))
+		}
+	}
+	for _, c := range w.callers {
+		if c.parent == p && c.lctx != nil && c.lctx.Err() == nil {
+			w.r.Fail("", fmt.Sprintf("holder-context-live-although-parent-cancelled cid=%d key=%d parent=%d", c.cid, c.key, p))
+		}
+	}
 	w.mu.Unlock()
 }
 
@@ -452,6 +465,9 @@ func (w *cworld) lockCall(run *crun, kind string, ctx context.Context, key strin
 	w.callers = append(w.callers, c)
 	w.r.Op(fmt.Sprintf("begin %s %d %d", kind, c.key, c.parent), fmt.Sprintf("cid %d", c.cid), true)
 	w.inCall[g], w.lastCall[g] = c, c
+	if want, ok := w.wantKey[g]; ok && want != key {
+		w.r.Fail("", fmt.Sprintf("index-of-manifest-%s-locked-another-key-%q", want, key))
+	}
 	pdead := c.parent < len(w.parents) && w.parents[c.parent].dead
 	if pdead {
 		w.r.Count("caller:" + w.mode + ":parent-dead-before-lock")
@@ -467,6 +483,8 @@ func (w *cworld) lockCall(run *crun, kind string, ctx context.Context, key strin
 		w.r.Fail("", fmt.Sprintf("acquired-with-dead-context key=%d", c.key))
 	case !c.acquired && !c.busy:
 		w.r.Fail("", fmt.Sprintf("lock-call-returned-without-deciding cid=%d key=%d", c.cid, c.key))
+	case c.acquired && ctx.Err() != nil && lc.Err() == nil:
+		w.r.Fail("", fmt.Sprintf("holder-context-live-although-parent-cancelled cid=%d key=%d", c.cid, c.key))
 	}
 	if c.acquired && ctx.Err() != nil && !pdead {
 		w.r.Count("caller:" + w.mode + ":parent-cancelled-while-parked")
@@ -503,7 +521,7 @@ func (w *cworld) doneCall(c *caller, f context.CancelFunc) {
 }
 
 // enterBody is the critical section of every caller: it parks at the gate.
-func (w *cworld) enterBody(ctx context.Context, what string) int {
+func (w *cworld) enterBody(ctx context.Context, what, want string) int {
 	g := hx.GoID()
 	w.mu.Lock()
 	c := w.inCall[g]
@@ -511,6 +529,9 @@ func (w *cworld) enterBody(ctx context.Context, what string) int {
 		w.r.Fail("", "critical-section-entered-without-the-lock "+what)
 		w.mu.Unlock()
 		return 0
+	}
+	if want != "" && w.keyNameLocked(c.key) != want {
+		w.r.Fail("", fmt.Sprintf("critical-section-of-%s-ran-under-the-key-%q", what, w.keyNameLocked(c.key)))
 	}
 	c.bodyEntered, c.bodyCtx = true, ctx
 	w.inside[c.key]++
@@ -543,7 +564,7 @@ func (w *cworld) enterBody(ctx context.Context, what string) int {
 type stubArena struct{ w *cworld }
 
 func (a *stubArena) Realizer(ctx context.Context) indexer.Realizer {
-	if a.w.enterBody(ctx, "controller.Index") == 3 {
+	if a.w.enterBody(ctx, "controller.Index", "") == 3 {
 		panic("scripted panic inside the critical section")
 	}
 	return stubRealizer{}
@@ -601,8 +622,12 @@ func (w *cworld) startIndex(k, p int) {
 		defer w.wg.Done()
 		g := hx.GoID()
 		var err error
+		w.mu.Lock()
+		w.wantKey[g] = m.Hash.String()
+		w.mu.Unlock()
 		out := hx.Guard(func() string { _, err = w.lib.Index(ctx, m); return "" })
 		w.mu.Lock()
+		delete(w.wantKey, g)
 		c := w.lastCall[g]
 		delete(w.lastCall, g)
 		delete(w.inCall, g)
@@ -631,7 +656,7 @@ func (u *mUpdater) Fetch(ctx context.Context, _ driver.Fingerprint) (io.ReadClos
 	if u.w == nil {
 		return nil, "", driver.Unchanged
 	}
-	switch u.w.enterBody(ctx, "updater "+u.name) {
+	switch u.w.enterBody(ctx, "updater "+u.name, u.name) {
 	case 0:
 		return nil, "", driver.Unchanged
 	case 2:
@@ -677,7 +702,7 @@ func (s *mStore) GC(ctx context.Context, _ int) (int64, error) {
 	if s.w == nil {
 		return 0, nil
 	}
-	if s.w.enterBody(ctx, "store.GC") == 1 {
+	if s.w.enterBody(ctx, "store.GC", "garbage-collection") == 1 {
 		return 0, errScripted
 	}
 	return 0, nil
@@ -747,7 +772,7 @@ func (u *uUpdater) Fetch(ctx context.Context, _ *zip.Writer, _ udriver.Fingerpri
 	if u.w == nil {
 		return "", udriver.ErrUnchanged
 	}
-	switch u.w.enterBody(ctx, "updater "+u.name) {
+	switch u.w.enterBody(ctx, "updater "+u.name, u.name) {
 	case 0:
 		return "", udriver.ErrUnchanged
 	case 2:
@@ -836,8 +861,11 @@ func (w *cworld) rawTry(k, p int) {
 	if c.Err() != nil && !pdead {
 		w.r.Fail("", fmt.Sprintf("trylock-acquired-dead-context key=%d", k))
 	}
+	if c.Err() == nil && pdead {
+		w.r.Fail("", fmt.Sprintf("holder-context-live-although-parent-cancelled key=%d parent=%d", k, p))
+	}
 	w.mu.Lock()
-	w.rawGrants[gid] = &grant{gid: gid, key: k, ctx: c, cancel: f}
+	w.rawGrants[gid] = &grant{gid: gid, key: k, parent: p, ctx: c, cancel: f}
 	w.mu.Unlock()
 }
 
@@ -859,7 +887,7 @@ func (w *cworld) rawLock(tid, k, p int) {
 		gid := w.rawAcq[g]
 		delete(w.rawLockG, g)
 		delete(w.threads, tid)
-		w.rawGrants[gid] = &grant{gid: gid, key: k, ctx: c, cancel: f}
+		w.rawGrants[gid] = &grant{gid: gid, key: k, parent: p, ctx: c, cancel: f}
 		w.mu.Unlock()
 	}()
 	<-started
@@ -985,11 +1013,9 @@ func (w *cworld) emitRet(c *caller) {
 		out = "ret " + c.retClass
 	}
 	w.r.Op(fmt.Sprintf("ret %d", c.cid), out, true)
-	if c.doneCalls == 0 {
-		w.r.Fail("", fmt.Sprintf("call-returned-without-calling-its-release cid=%d kind=%s key=%d acquired=%v", c.cid, c.kind, c.key, c.acquired))
-	}
+	// (a refused TryLock owes nothing: not calling its cancel function is harmless)
 	if c.acquired && !w.released[c.gid] {
-		w.r.Fail("", fmt.Sprintf("call-returned-still-holding-its-key cid=%d kind=%s key=%d gid=%d", c.cid, c.kind, c.key, c.gid))
+		w.r.Fail("", fmt.Sprintf("call-returned-still-holding-its-key cid=%d kind=%s key=%d gid=%d release-calls=%d", c.cid, c.kind, c.key, c.gid, c.doneCalls))
 	}
 	if c.bodyCtx != nil {
 		o := "dead"
@@ -1408,8 +1434,12 @@ func (w *cworld) indexSync(k, p int) {
 	g := hx.GoID()
 	var err error
 	m, ctx := w.manifests[k], w.parents[p].ctx
+	w.mu.Lock()
+	w.wantKey[g] = m.Hash.String()
+	w.mu.Unlock()
 	out := hx.Guard(func() string { _, err = w.lib.Index(ctx, m); return "" })
 	w.mu.Lock()
+	delete(w.wantKey, g)
 	c := w.lastCall[g]
 	delete(w.lastCall, g)
 	delete(w.inCall, g)
